@@ -85,6 +85,8 @@ def _case(draw):
             'window': draw(st.sampled_from([0, 0, 1, 2, 3])), 'penalty': draw(st.sampled_from([0, 0.5])),
             'psi': draw(st.integers(0, m)) if m >= 1 and draw(st.booleans()) else 0,
             'inner': draw(st.sampled_from([0, 1])),
+            'max_dist': draw(st.sampled_from([0, 0, 0.5, 1.0, 2.0, 4.0])), 'max_step': draw(st.sampled_from([0, 0, 0, 1.0, 3.0])),
+            'max_length_diff': draw(st.sampled_from([0, 0, 0, 1, 2])), 'use_pruning': draw(st.sampled_from([0, 0, 0, 1])),
             'threads': draw(st.one_of(st.integers(1, 8), st.integers(2, 8), st.integers(1, 64))),
             'chunks': draw(st.lists(st.sampled_from([1, 1, 1, 2, 3, 4]), min_size=1, max_size=6)),
             'preempt': draw(st.lists(st.tuples(st.one_of(st.integers(1, 12), st.integers(1, 60)), st.integers(0, 63)),
@@ -99,7 +101,8 @@ def encode(case):
         parts += [0, 0, 0, 0, 1]
     else:
         parts += [b[0][0], b[0][1], b[1][0], b[1][1], 0 if (len(b) > 2 and b[2] is False) else 1]
-    parts += [case['window'], case['penalty'], case['psi'], case['inner'], case['threads']]
+    parts += [case['window'], case['penalty'], case['psi'], case['inner'], float(case.get('max_dist', 0)),
+              float(case.get('max_step', 0)), case.get('max_length_diff', 0), case.get('use_pruning', 0), case['threads']]
     parts += [len(case['chunks'])] + list(case['chunks'])
     parts += [len(case['preempt'])]
     for r, t in case['preempt']:
